@@ -16,19 +16,21 @@ func Operate[A any, B any, R any](ac <-chan A, bc <-chan B, o func(A, B) R) <-ch
 	oc := make(chan R)
 
 	go func() {
-		defer close(oc)
-
 		for {
 			an, ok := <-ac
 			if !ok {
+				// Close the output before draining, so that readers of the
+				// output are not held up until the other input ends.
+				close(oc)
 				Drain(bc)
-				break
+				return
 			}
 
 			bn, ok := <-bc
 			if !ok {
+				close(oc)
 				Drain(ac)
-				break
+				return
 			}
 
 			oc <- o(an, bn)
